@@ -161,6 +161,32 @@ fn main() {
             out.flush().unwrap();
             continue;
         }
+        if p.len() >= 5 && p[0] == "i32in" {
+            // i32in <fn> <window> <min_periods|-> <i0,i1,..>   the 16 rolling moment kernels on a Vec<i32> input (f64 output)
+            let name = p[1].to_string();
+            let w: usize = p[2].parse().unwrap();
+            let mp: Option<usize> = if p[3] == "-" { None } else { Some(p[3].parse().unwrap()) };
+            let x: Vec<i32> = if p[4] == "-" { vec![] } else { p[4].split(',').map(|t| t.parse::<i32>().unwrap()).collect() };
+            let r = std::panic::catch_unwind(|| {
+                macro_rules! one { ($m:ident) => {{ let o: Vec<f64> = x.$m(w, mp); o }}; }
+                match name.as_str() {
+                    "ts_vsum" => one!(ts_vsum), "ts_vmean" => one!(ts_vmean), "ts_vewm" => one!(ts_vewm), "ts_vwma" => one!(ts_vwma),
+                    "ts_vstd" => one!(ts_vstd), "ts_vvar" => one!(ts_vvar), "ts_vskew" => one!(ts_vskew), "ts_vkurt" => one!(ts_vkurt),
+                    "ts_sum" => one!(ts_sum), "ts_mean" => one!(ts_mean), "ts_ewm" => one!(ts_ewm), "ts_wma" => one!(ts_wma),
+                    "ts_std" => one!(ts_std), "ts_var" => one!(ts_var), "ts_skew" => one!(ts_skew), "ts_kurt" => one!(ts_kurt),
+                    _ => panic!("unknown function {name}"),
+                }
+            });
+            match r {
+                Ok(v) => writeln!(out, "{}", fmt(&v)).unwrap(),
+                Err(e) => {
+                    let msg = e.downcast_ref::<String>().cloned().or_else(|| e.downcast_ref::<&str>().map(|s| s.to_string())).unwrap_or_default();
+                    writeln!(out, "PANIC {}", msg.replace('\n', " ")).unwrap()
+                },
+            }
+            out.flush().unwrap();
+            continue;
+        }
         if p.len() >= 4 && p[0] == "into_unit" {
             // into_unit <s|ms|us|ns> <s|ms|us|ns> <i64>  ->  R <i64> | PANIC <msg>
             use tevec::prelude::unit::*;
